@@ -140,9 +140,9 @@ def search(ctx, binp, n):
             klass = r.get("class") or None
             if base == "mapfile_blocked":
                 klass = "mapfile_blocked_read_not_cancel_aware"
-            if base == "exec_sleep_ignores_int_in_subst" and r.get("exec_kill_ms") is not None and r["exec_kill_ms"] <= 0:
-                # kill timeout <= 0 (no WaitDelay) + stdout that is not a file (command substitution) + a grandchild
-                # that survives the killed child and keeps the pipe open
+            if base.startswith("exec_grandchild_holds_pipe") and r.get("exec_kill_ms") is not None and r["exec_kill_ms"] <= 0:
+                # kill timeout <= 0 (no WaitDelay) + stdout that is not a file (harness buffer / command substitution)
+                # + a grandchild that survives the killed child and keeps the pipe open
                 klass = "exec_no_wait_delay_grandchild_holds_output_pipe"
             ctx.fail("run_returns_after_cancel", inp, klass, {"watchdog": "no return 6.5 s (+ kill timeout) after the cancellation"})
             continue
